@@ -91,6 +91,18 @@ CLAIMED['C07'] = dict(
     note='Trusted: rustc MIR printer, mirsym, VecDeque modelled as a logical queue, Ref<ChannelWaiter> as identities, Z3.',
     ref='§4 C07')
 
+CLAIMED['C13'] = dict(
+    text='Decides with Z3 over the real MIR of op_invoke / op_super_invoke / op_get_prop_by_name / op_set_prop_by_name and of '
+         'InlineCache (C13.K1), with class method / field tables as uninterpreted functions (any tables): started from an '
+         'arbitrary cache state satisfying the cache invariant, the op is indistinguishable (callee, arguments, stack, ip, error '
+         'class) from the same op started with an empty cache, the entry it leaves behind satisfies the invariant again '
+         '(entry => that class has that method / field index, and no instance field shadows a cached method), and entries of '
+         'other sites are untouched. This is "behaves as with every lookup forced to the slow path" for every receiver and class '
+         'table. The clause about classes collected and re-created at the same address needs address reuse, which is not modelled.',
+    note='Trusted: rustc MIR printer, mirsym, abstract object identities, call summary at resolve_call, Z3. Assumes class tables '
+         'are immutable once instances exist and slot ids are in range (C19).',
+    ref='§4 C13')
+
 NOT_APPLICABLE = {
     'C08': 'global liveness of the fiber scheduler needs the running Vm (DESIGN.md §6); no bounded symbolic encoding of the real scheduler is within reach',
 }
